@@ -47,7 +47,9 @@ fn handle_line(line: &str, dispatch: fn(&Value) -> OpResult) -> Value {
     match catch_unwind(AssertUnwindSafe(|| dispatch(&cmd))) {
         Ok(Ok(v)) => json!({"id": id, "ok": v}),
         Ok(Err(e)) => {
-            if let Some(h) = e.strip_prefix("harness: ") {
+            // "tolerant" commands (fuzzing) report unusable arguments as ordinary errors
+            let tolerant = cmd.get("tolerant").and_then(Value::as_bool).unwrap_or(false);
+            if let (Some(h), false) = (e.strip_prefix("harness: "), tolerant) {
                 json!({"id": id, "harness_error": h})
             } else {
                 json!({"id": id, "err": e})
